@@ -263,6 +263,19 @@ func (w *World) verifyFuncMode(fi *FuncInfo, ct *Contract, defaultSafety bool, p
 	for _, rv := range e.Results {
 		st.vars[rv] = c.zeroValue(rv.Type())
 	}
+	// a function literal verified as a unit: the enclosing function's locals it captures are arbitrary
+	for _, cv := range capturedVars(fi) {
+		v, facts := c.freshValue(cv.Type(), "cap_"+cv.Name())
+		for _, f := range facts {
+			st.assume(f)
+		}
+		c.recordInputs(cv.Name(), cv.Type(), v)
+		if e.isBoxed(cv) {
+			e.setVar(st, cv, v)
+		} else {
+			st.vars[cv] = v
+		}
+	}
 	c.protoEntry(e, st)
 	c.entry = st.clone()
 	// requires
